@@ -1,5 +1,6 @@
 import Driver.Frame
 import KrakenModel.Model.Retry
+import KrakenModel.Proof.C30
 /- Driver for C30: replays persistedretry-manager transcripts on `Model.Retry` (the harness ops are
    short sequences of the model's atomic steps; workers take eagerly, as the harness waits for) and
    monitors the property on what the implementation's table and executor log showed. -/
@@ -19,6 +20,7 @@ structure Mon where
   tbl : String := "-"                 -- last table dump
   keys : List String := []            -- its keys
   succeeded : List String := []       -- an execution returned success; row not yet seen gone
+  payload : List (String × String) := []  -- key -> payload token it was (last) accepted with
 
 structure St where
   m : State := {}
@@ -54,8 +56,16 @@ def tblTok (s : State) : String := listTok (s.rows.map (rowTok s.now))
 
 def sortNat (xs : List Nat) : List Nat := (xs.toArray.qsort (· < ·)).toList
 
+/-- the payload columns the harness gives key k (tagreplication: k%3+1 dependencies) -/
+def payloadOf' (tr : Bool) (k d : Nat) : List Nat := [d, if tr then k % 3 + 1 else 0]
+
+def payTok (pl : List Nat) : String := s!"{pl.headD 0}.{(pl.drop 1).headD 0}.g"
+
+def startTok (s : State) (k : Nat) : String :=
+  s!"{keyTok k}:{payTok ((payloadOf s.rows k).getD [])}"
+
 def tail (s : State) (started : List Nat) : List String :=
-  ["t=" ++ tblTok s, "s=" ++ listTok ((sortNat started).map keyTok)]
+  ["t=" ++ tblTok s, "s=" ++ listTok ((sortNat started).map (startTok s))]
 
 /-- one step of a paused poll pass: send the marked task (if any), then examine tasks until one is
 marked pending or the pass ends.  Returns (state, enq, over, mark, done). -/
@@ -101,7 +111,20 @@ def tblKeys (tok : String) : List String :=
 /-- monitors over the implementation's observation of this op (`impl`), given what it showed before -/
 def monitor (s : St) (args impl : List String) : List String × Mon :=
   let tbl := (kv? impl "t").getD "?"
-  let started := list? ((kv? impl "s").getD "-")
+  let startedP := (list? ((kv? impl "s").getD "-")).map fun t => ((t.splitOn ":").headD "", ":".intercalate ((t.splitOn ":").drop 1))
+  let started := startedP.map (·.1)
+  -- the payload a key is accepted with (an Add of a key that is not in the table)
+  let pay0 : List (String × String) := match args with
+    | ["add", k, d] | ["addb", k, d] =>
+      if k ∈ s.mon.keys then s.mon.payload else
+        match key? k, d.toNat? with
+        | some kn, some dn => (k, payTok (payloadOf' s.tr kn dn)) :: s.mon.payload.filter (·.1 ≠ k)
+        | _, _ => s.mon.payload
+    | _ => s.mon.payload
+  let pf4 := startedP.filterMap fun (k, p) =>
+    match pay0.lookup k with
+    | some p0 => if p0 ≠ p then some s!"side=impl key=payload-changed {k} was added with payload {p0} and is executed with {p} (delay.dependencies.digests)" else none
+    | none => none
   let keys := tblKeys tbl
   let res := impl.headD ""
   let gone := s.mon.keys.filter (· ∉ keys)
@@ -124,7 +147,7 @@ def monitor (s : St) (args impl : List String) : List String × Mon :=
   let succ := match args with
     | ["fin", k, "ok"] => if res = "ok" ∧ k ∈ keys then k :: succ else succ
     | _ => succ
-  (pf1 ++ pf2 ++ pf3, { tbl, keys, succeeded := succ })
+  (pf1 ++ pf2 ++ pf3 ++ pf4, { tbl, keys, succeeded := succ, payload := pay0 })
 
 def step (s : St) (kind : String) (args impl : List String) : Option (St × StepOut) :=
   if kind ≠ "op" then none else
@@ -135,7 +158,7 @@ def step (s : St) (kind : String) (args impl : List String) : Option (St × Step
   | ["add", kt, dt] => do
     let k ← key? kt
     let d ← nat? dt
-    match stepO s.m (.addBegin k d) with
+    match stepO s.m (.addBegin k d (payloadOf' s.tr k d)) with
     | (m1, .addedPending) =>
       let (m2, o2) := stepO m1 (.addEnq k)
       let (m3, st) := settle m2
@@ -147,7 +170,7 @@ def step (s : St) (kind : String) (args impl : List String) : Option (St × Step
     let k ← key? kt
     let d ← nat? dt
     if s.m.mode = .up ∧ placeOf s.m.own k = some .adding then fin s.m s.pollActive ["busy"] [] "addb.busy" else
-    match stepO s.m (.addBegin k d) with
+    match stepO s.m (.addBegin k d (payloadOf' s.tr k d)) with
     | (m1, .addedPending) => fin m1 s.pollActive ["gate"] [] "addb.gate"
     | (m1, .closed) => fin m1 s.pollActive ["closed"] [] "addb.closed"
     | (m1, .dup) => fin m1 s.pollActive ["ok"] [] "addb.dup"
